@@ -183,6 +183,7 @@ pub fn props_of(case: &Value) -> Vec<&'static str> {
     if slice == "alias" { v.push("C08"); }
     if slice != "print" { v.push("C04"); }
     if slice != "deep" { v.push("C19"); v.push("C21"); }
+    if slice == "lists" { v.push("C16"); }
     v
 }
 
@@ -228,6 +229,10 @@ pub fn replay(case: &Value) -> Vec<Obs> {
     let out_ok = (0..expect.len()).all(|i| i < run.segs.len() && run.segs[i].out == exp_at(i).out);
     let detail = format!("{} :: reference {} / engine {}{}", what, show_segs(&expect), show_segs(&run.segs),
                          run.panic.as_ref().map(|p| format!(" PANIC {}", p)).unwrap_or_default());
+    // C16: append() as a goal of a clause body (its list arguments were renamed with the clause): same verdict as the answers
+    if slice == "lists" { if let Tm::Cx(f, _) = &qt { if ["apb", "nest", "nest2"].contains(&f.as_str()) {
+        if first_part_ok { obs.push(Obs::ok("C16", "append-in-clause-body")); } else { obs.push(Obs::bad("C16", "append-in-clause-body", format!("{} :: reference {} / engine {}", what, show_segs(&expect), show_segs(&run.segs)))); }
+    } } }
     if first_part_ok && (out_ok || owner == "C04") { obs.push(Obs::ok(owner, "answers")); }
     else if owner != "C04" { obs.push(Obs::bad(owner, if first_part_ok { "output" } else { "answers" }, detail.clone())); }
     if expect.iter().any(|s| !s.out.is_empty()) || owner == "C04" {
@@ -352,6 +357,34 @@ pub fn replay(case: &Value) -> Vec<Obs> {
             }
         }
         match bad { None => obs.push(Obs::ok("C10", "two-live-searches")), Some(d) => obs.push(Obs::bad("C10", "two-live-searches", d)) }
+    }
+    // C10: the application stops the query between two answers (stop_query() is public) and goes on the way solve()
+    // does -- start_query_timer(), next_solution(), cancel_timer(): the search continues where it was, and the ids of
+    // the clauses fetched from then on are not in use in it (the id counter stays above every id of the bindings)
+    if (slice == "lists" || slice == "alias" || slice == "andor") && first_part_ok && expect.len() >= 2 {
+        start_query();
+        let q = Rc::new(make_query(qterms.clone()));
+        let args: Vec<Tm> = match &*q { Goal::ComplexGoal(Unifiable::SComplex(v)) => v[1..].iter().map(project).collect(), _ => vec![] };
+        let sn = make_base_node(Rc::clone(&q), &kb);
+        let mut bad: Option<String> = None;
+        for i in 0..expect.len() {
+            if i >= 1 { stop_query(); }
+            let r = catch_unwind(AssertUnwindSafe(|| { let t = start_query_timer(5000); let r = next_solution(Rc::clone(&sn)).map(|s| (*s).clone()); cancel_timer(t); r }));
+            match r {
+                Ok(Some(ss)) => {
+                    let counter = get_var_id();
+                    let mut top = 0;
+                    for (k, b) in ss.iter().enumerate() { if let Some(b) = b { top = top.max(k).max(max_id(&project(b))); } }
+                    let ans = canon(&args.iter().map(|t| resolve(t, &ss)).collect::<Vec<_>>());
+                    if top > counter { bad = Some(format!("{} :: after stop_query() and start_query_timer(), answer {}: variable id {} is in use in the bindings but the id counter is {}", what, i + 1, top, counter)); break; }
+                    if !(exp_at(i).some && ans == exp_at(i).ans) { bad = Some(format!("{} :: stopped between the answers and continued: answer {} is ({}) instead of {}", what, i + 1, show_vec(&ans), show_segs(&[exp_at(i)]))); break; }
+                }
+                Ok(None) => { if exp_at(i).some { bad = Some(format!("{} :: stopped between the answers and continued: no answer {}", what, i + 1)); break; } }
+                Err(_) => { bad = Some(format!("{} :: stopped between the answers and continued: panic", what)); break; }
+            }
+        }
+        capture::take();
+        match bad { None => obs.push(Obs::ok("C10", "continued-after-stop_query")), Some(d) => obs.push(Obs::bad("C10", "continued-after-stop_query", d)) }
     }
     if slice == "alias" {
         if run.cycle { obs.push(Obs::bad("C08", "cycle", detail.clone())); } else { obs.push(Obs::ok("C08", "acyclic")); }
